@@ -4,5 +4,5 @@ patch=$1; prop=$2; tier=${3:-quick}
 cd /repo || exit 2
 git apply "$patch" || { echo "PATCH DOES NOT APPLY"; exit 2; }
 git diff --stat | tail -1
-cd /verif && ./check $prop --tier $tier | cut -c1-700
+cd /verif && VERIF_EVIDENCE_DIR=/verif/.build/evidence-mutant ./check $prop --tier $tier | cut -c1-700
 cd /repo && git checkout -- . && git status --short | head -3
